@@ -261,7 +261,7 @@ func vRegister() {
 type vElem struct {
 	kind   string // pp | throttle | tee | consume | subroute | break
 	n      int    // consume: byte count
-	v2     bool   // pp: header version
+	hk     int    // pp: header kind (index into vHdrKinds)
 	rs     int    // read size of the recorder (consume, tee branch)
 	id     string
 	rawpos int // raw stream position at which the element starts
@@ -308,6 +308,23 @@ func vStream(seed, n int) []byte {
 }
 
 var vHdrV1 = []byte("PROXY TCP4 192.0.2.1 198.51.100.2 40000 443\r\n")
+var vSigV2 = []byte{0x0D, 0x0A, 0x0D, 0x0A, 0x00, 0x0D, 0x0A, 0x51, 0x55, 0x49, 0x54, 0x0A}
+var vAddr4 = []byte{192, 0, 2, 1, 198, 51, 100, 2, 0x9c, 0x40, 0x01, 0xbb}
+
+// every header form the handler accepts, with and without declared addresses
+var vHdrKinds = []struct {
+	name string
+	hdr  []byte
+}{
+	{"v1-tcp4", vHdrV1},
+	{"v2-proxy-tcp4", vHdrV2},
+	{"v1-unknown", []byte("PROXY UNKNOWN\r\n")},
+	{"v1-unknown-with-rest", []byte("PROXY UNKNOWN ffff::1 ffff::2 1 2\r\n")},
+	{"v2-local", append(append([]byte{}, vSigV2...), 0x20, 0x00, 0x00, 0x00)},
+	{"v2-local-with-addresses", append(append(append([]byte{}, vSigV2...), 0x20, 0x11, 0x00, 0x0C), vAddr4...)},
+	{"v2-proxy-unspec", append(append([]byte{}, vSigV2...), 0x21, 0x00, 0x00, 0x00)},
+}
+
 var vHdrV2 = append([]byte{0x0D, 0x0A, 0x0D, 0x0A, 0x00, 0x0D, 0x0A, 0x51, 0x55, 0x49, 0x54, 0x0A, 0x21, 0x11, 0x00, 0x0C},
 	192, 0, 2, 1, 198, 51, 100, 2, 0x9c, 0x40, 0x01, 0xbb)
 
@@ -331,7 +348,7 @@ func vGenScenario(rng *vRng, idx int, port int) *vScenario {
 			e.n = []int{1, 5, 100, 2048, 4096, 5000}[rng.Intn(6)]
 			e.rs = []int{1, 7, 512, 4096, 32768}[rng.Intn(5)]
 		case "pp":
-			e.v2 = rng.Bool()
+			e.hk = rng.Intn(len(vHdrKinds))
 		case "tee":
 			e.rs = []int{7, 512, 4096, 32768}[rng.Intn(4)]
 		}
@@ -340,11 +357,11 @@ func vGenScenario(rng *vRng, idx int, port int) *vScenario {
 	// a forced interesting shape every few scenarios: matcher needing > 4096 bytes, then one wrapper
 	switch idx % 8 {
 	case 0:
-		sc.elems = []vElem{{kind: "pp", id: "pp0", v2: rng.Bool()}}
+		sc.elems = []vElem{{kind: "pp", id: "pp0", hk: rng.Intn(len(vHdrKinds))}}
 	case 1:
 		sc.elems = []vElem{{kind: "tee", id: "tee0", rs: 4096}}
 	case 2:
-		sc.elems = []vElem{{kind: "pp", id: "pp0"}, {kind: "break", id: "break1"}, {kind: "tee", id: "tee2", rs: 512}}
+		sc.elems = []vElem{{kind: "pp", id: "pp0", hk: rng.Intn(len(vHdrKinds))}, {kind: "break", id: "break1"}, {kind: "tee", id: "tee2", rs: 512}}
 	}
 	sc.echo = rng.Intn(4) == 0
 	sc.termRS = []int{1, 7, 512, 4096, 32768}[rng.Intn(5)]
@@ -377,11 +394,7 @@ func vGenScenario(rng *vRng, idx int, port int) *vScenario {
 			inCx = 0 // a new Connection (Wrap) starts here
 		case "pp":
 			inCx = 0
-			if e.v2 {
-				raw = append(raw, vHdrV2...)
-			} else {
-				raw = append(raw, vHdrV1...)
-			}
+			raw = append(raw, vHdrKinds[e.hk].hdr...)
 		}
 	}
 	endpos := len(raw)
@@ -582,6 +595,10 @@ func vGenScenario(rng *vRng, idx int, port int) *vScenario {
 	}
 	var ks []string
 	for _, e := range sc.elems {
+		if e.kind == "pp" {
+			ks = append(ks, "pp("+vHdrKinds[e.hk].name+")")
+			continue
+		}
 		ks = append(ks, e.kind)
 	}
 	sc.desc = fmt.Sprintf("chain=[%s] echo=%v raw=%d tail=%d seg=%s tls=%v", strings.Join(ks, ","), sc.echo, len(raw), tail, sc.segName, sc.tls)
